@@ -28,7 +28,23 @@ ASSUMPTIONS = [
     "the total order of task.unique calls is the recorder's sequence (single-threaded event loop)",
 ]
 NAMES = ["n1", "n2", "n3"]
+LOCKER = '''
+def claim(wid, name, km):
+    # task.unique called by a function of this module: the name belongs to the module's context, whoever runs it
+    vf.rec("uq", wid=wid, name="m:" + name, km=km)
+    task.unique(name, kill_me=km)
+    vf.rec("claimed", wid=wid, name="m:" + name)
+
+def snap(label):
+    vf.rec("snap", ctx="m", label=label, names=vf.names(task.name2id()))
+'''
 SCRIPT = '''
+import locker
+
+@service
+def snap_m_{c}(label=None):
+    locker.snap(label)
+
 @service
 def worker_{c}(wid=None, ops=None):
     vf.rec("start", wid=wid)
@@ -37,6 +53,8 @@ def worker_{c}(wid=None, ops=None):
             vf.rec("uq", wid=wid, name="{c}:" + op[1], km=op[2])
             task.unique(op[1], kill_me=op[2])
             vf.rec("claimed", wid=wid, name="{c}:" + op[1])
+        elif op[0] == "unique_mod":
+            locker.claim(wid, op[1], op[2])
         elif op[0] == "sleep":
             task.sleep(op[1])
         elif op[0] == "mark":
@@ -116,7 +134,7 @@ def generate(tier, seed, gated=frozenset()):
                 wid += 1
             t1 = rng.choice([1.0, 2.5])
             for _ in range(rng.randint(2, 4)):
-                ops = [["unique", rng.choice(NAMES), rng.random() < 0.5]]
+                ops = [["unique" if rng.random() < 0.75 else "unique_mod", rng.choice(NAMES), rng.random() < 0.5]]
                 if rng.random() < 0.4:
                     ops.append(["unique", rng.choice(NAMES), rng.random() < 0.5])
                 ops += [["sleep", rng.choice([0, 0.5, 2.0])], ["mark", 99]]
@@ -137,7 +155,7 @@ def generate(tier, seed, gated=frozenset()):
             for _ in range(rng.randint(1, 4)):
                 k = rng.random()
                 if k < 0.5:
-                    ops.append(["unique", rng.choice(NAMES), rng.random() < 0.3])
+                    ops.append(["unique" if rng.random() < 0.7 else "unique_mod", rng.choice(NAMES), rng.random() < 0.3])
                 elif k < 0.8:
                     ops.append(["sleep", rng.choice([0, 0.5, 1.5, 3.0])])
                 elif k < 0.93:
@@ -156,7 +174,7 @@ def run_case(case):
     from ..sim import run_world, task_serial
 
     tasks = case["tasks"]
-    files = {"a.py": SCRIPT.replace("{c}", "a"), "b.py": SCRIPT.replace("{c}", "b")}
+    files = {"a.py": SCRIPT.replace("{c}", "a"), "b.py": SCRIPT.replace("{c}", "b"), "modules/locker.py": LOCKER}
     if case.get("preamble"):
         # a claim made by a task pyscript did not start (the file-loading task): must not register, must not be cancelled
         files["a.py"] = "task.unique('n1')\nvf.rec('preamble_done')\n" + files["a.py"]
@@ -182,6 +200,7 @@ def run_case(case):
             if kind == 1:
                 for c in ("a", "b"):
                     await w.hass.services.async_call("pyscript", f"snap_{c}", {"label": at}, blocking=True)
+                await w.hass.services.async_call("pyscript", "snap_m_a", {"label": at}, blocking=True)
                 continue
             if t["kind"] == "svc":
                 pending.append(w.loop.create_task(call(t)))
